@@ -13,9 +13,12 @@ func (s *stateMachine[V, H, A]) ProcessStart(round types.Round) []actions.Action
 		return nil
 	}
 	s.isHeightStarted = true
+	// Copy the height: the driver reads the entry after this call returned, and the call may decide
+	// the height (and increment s.state.height) when the whole round arrived early.
+	startedHeight := s.state.height
 	return s.processLoop(
 		[]actions.Action[V, H, A]{
-			&actions.WriteWAL[V, H, A]{Entry: (*wal.Start)(&s.state.height)},
+			&actions.WriteWAL[V, H, A]{Entry: (*wal.Start)(&startedHeight)},
 			s.startRound(round),
 		},
 		nil,
